@@ -216,6 +216,9 @@ func (r *Report) finish(verifDir string, wall float64, seed int, explanation str
 				}
 			}
 		}
+		if v := os.Getenv("VERIF_VERBOSE"); v != "" && (v == "1" || strings.HasPrefix(o.Rule, v)) {
+			fmt.Printf("  [%s] %s %s @%s: %s\n", o.Status, o.Rule, o.Construct, o.Where, o.Detail)
+		}
 		switch o.Status {
 		case Discharged:
 			st.Discharged++
